@@ -389,12 +389,92 @@ def run_iso(ctx, scn):
     return len(events), sum(1 for e in events if e["ev"] in ("deliver", "end", "aggsaw", "ret"))
 
 
+def chain_stage(ctx):
+    """run-time changes of the rewriter list (RewriteChain.tla)"""
+    q = ctx.quick()
+    base = dict(Family="list", Big=False, NameMax=3, CNames="few")
+    # exhaustive: the table as it is (no memory) and a memory dropped on every change satisfy ChainOK; a memory of
+    # results per name that survives DelRewriter is rejected
+    ctx.tlc("RewriteChain", "RewriteChain_mc.cfg", consts=dict(base, Memo="none", CDepth=ctx.pick(4, 5)), workers=ctx.pick(6, 8), timeout=3000)
+    if not q:
+        ctx.tlc("RewriteChain", "RewriteChain_mc.cfg", consts=dict(base, Memo="fresh_on_change", CDepth=5), workers=8, timeout=3000)
+    r = ctx.tlc("RewriteChain", "RewriteChain_mc.cfg", consts=dict(base, Memo="kept_on_delete", CDepth=5), workers=6, expect_ok=False,
+                count=False, timeout=3000, tag="nv_chain_memo")
+    if r["violated"] != "ChainOK":
+        raise Machinery("deviation kept_on_delete is not rejected by ChainOK (violated=%s): vacuity" % r["violated"])
+    # histories with expectations
+    num, depth = ctx.pick(300, 3000), ctx.pick(14, 20)
+    r = ctx.tlc("RewriteChain", "RewriteChain_gen.cfg", workers=1, timeout=3000, heap="4g", tag="gen_chain", count=False,
+                consts=dict(NameMax=3, CNames="all" if not q else "few", CDepth=depth),
+                simulate="num=%d" % num, args=["-depth", str(depth + 3), "-seed", str(ctx.seed)])
+    gen = [json.loads(x) for x in ctx.tlc_printed(r, "@@H")]
+    if len(gen) != num:
+        raise Machinery("RewriteChain generator printed %d of %d histories; log %s" % (len(gen), num, r["log"]))
+    cf = ctx.write_ndjson("rwchain_cases.ndjson", [dict(h=h, steps=[dict(op=s["op"], rule=s["rule"] if s["op"] == "add" else {}, i=s["i"], n=s["n"])
+                                                                      for s in g["steps"]]) for h, g in enumerate(gen)])
+    of = os.path.join(ctx.out, "rwchain_out.ndjson")
+    ctx.go_test("rw", run="^TestRWChain$", timeout=1500, env=dict(VERIF_RWCHAIN_CASES=cf, VERIF_RWCHAIN_OUT=of))
+    outs = ctx.read_ndjson(of)
+    if not outs or outs[-1]["h"] != -1 or len(outs) != num + 1:
+        raise Machinery("rw chain driver result is incomplete (%d records for %d histories)" % (len(outs), num))
+    ncmp = nchanged = nrep = 0
+    for g, o in zip(gen, outs):
+        seen = {}
+        if len(o["steps"]) != len(g["steps"]):
+            raise Machinery("rw chain: history %d has %d recorded steps for %d" % (o["h"], len(o["steps"]), len(g["steps"])))
+        for k, (s, x) in enumerate(zip(g["steps"], o["steps"])):
+            if s["op"] == "add" and x.get("err"):
+                raise Machinery("rw chain: rule of the pool could not be built: %s" % x["err"])
+            if s["op"] in ("add", "del") and (x.get("err") or x["len"] != s["len"]):
+                ctx.violation("chain:%s-result" % s["op"], "history %d step %d: %s left %s rewriters in the table (error %r), expected %d"
+                              % (o["h"], k, "AddRewriter" if s["op"] == "add" else "DelRewriter(%d)" % s["i"], x.get("len"), x.get("err"), s["len"]),
+                              dict(history=hist_text(g, k)))
+                break
+            if s["op"] != "disp":
+                continue
+            ncmp += 1
+            name = b2s(s["n"])
+            prev = seen.get(name)
+            if prev is not None:
+                nrep += 1
+                if prev != s["e"]:
+                    nchanged += 1
+            seen[name] = s["e"]
+            if not x["got"] or x["line"] != s["f"]:
+                chain = [rule_text(r) for r in s["rule"]]
+                ctx.violation("chain:forwarded-name-not-of-chain-in-force%s" % (" name-seen-under-earlier-chain" if prev is not None and prev != s["e"] else ""),
+                              "history %d step %d: %r dispatched with the rewriters %s in force was forwarded as %r, expected %r%s"
+                              % (o["h"], k, name, chain, b2s(x["line"]) if x["got"] else None, b2s(s["f"]),
+                                 (" (the same name was forwarded as %r under an earlier chain)" % b2s(prev)) if prev is not None else ""),
+                              dict(history=hist_text(g, k)))
+                break
+    if nchanged < 20 and not ctx.violations:
+        raise Machinery("rw chain: only %d dispatches of a name whose rewritten form changed with the chain" % nchanged)
+    # binding self-test: the comparison is with the chain IN FORCE -- the expectation of the previous dispatch of the same name must differ
+    ctx.cov["rewriter_chain_histories"] = dict(histories=num, steps=sum(len(g["steps"]) for g in gen), dispatches_compared=ncmp,
+                                               names_dispatched_again=nrep, of_which_rewritten_differently_after_a_change=nchanged)
+    return ncmp
+
+
+def hist_text(g, upto):
+    out = []
+    for s in g["steps"][:upto + 1]:
+        if s["op"] == "add":
+            out.append("add " + rule_text(s["rule"]))
+        elif s["op"] == "del":
+            out.append("del %d" % s["i"])
+        else:
+            out.append("dispatch %r -> expect %r" % (b2s(s["n"]), b2s(s["e"])))
+    return out
+
+
 def run(ctx):
     cases = tlc_stage(ctx)
     scn, nev, nontriv = run_cases(ctx, cases)
     ntrace, nchecked = run_iso(ctx, scn)
+    nchain = chain_stage(ctx)
     cov = ctx.cov
-    cov["evaluations"] = nev + nchecked
+    cov["evaluations"] = nev + nchecked + nchain
     cov["distinct_nontrivial"] = nontriv
     cov["rule"] = ("evaluations = TLC-expected vs observed comparisons of (rule list, name) cases (RW.Do and the line captured "
                    "behind a real Table) + deliver/end/aggsaw/ret events decided by BufIsoTrace.tla; distinct_nontrivial = "
